@@ -895,6 +895,12 @@ impl Policy {
         )
     }
 
+    /// A server that answers from a snapshot the harness keeps a handle on (the daemon's
+    /// system task publishes new snapshots through the same `Arc<RwLock<_>>`).
+    pub(crate) fn server_shared(&self, keys: &Keys, info: Arc<RwLock<NtpServerInfo>>) -> Server<MockClock> {
+        Server::new_internal(self.server_config(), MockClock::new(), info, keys.keyset.clone())
+    }
+
     pub(crate) fn trace(&self) -> String {
         format!(
             "dl={};da={};al={};aa={};nts={};ver={};cs={};co={}",
